@@ -44,7 +44,14 @@ func (t *idTable) id(d digest.Digest) string {
 	return v
 }
 
-func (t *idTable) lookup(d digest.Digest) string {
+// lookup never assigns a new id; a digest that cannot even be keyed (the
+// zero Digest) is reported as "?bad".
+func (t *idTable) lookup(d digest.Digest) (id string) {
+	defer func() {
+		if recover() != nil {
+			id = "?bad"
+		}
+	}()
 	if v, ok := t.ids[key(d)]; ok {
 		return v
 	}
